@@ -27,7 +27,8 @@ def upd_size(rng, plat, maxchunks=40):
     return rng.range(1, CHUNK * maxchunks)
 
 
-def history(rng, plat, nops, with_clone=True, with_reset=False, query_rate=0.3, maxchunks=40, budget=160 * CHUNK):
+def history(rng, plat, nops, with_clone=True, with_reset=False, query_rate=0.3, maxchunks=40, budget=160 * CHUNK,
+            write_rate=0.3):
     """ops over hasher instances; keeps the total absorbed bytes under `budget` (model cost)."""
     ops = []
     ninst = 1
@@ -54,7 +55,8 @@ def history(rng, plat, nops, with_clone=True, with_reset=False, query_rate=0.3, 
         if spent + n > budget:
             n = rng.range(0, 200)
         spent += n
-        ops.append(f"u:{i}:{bspec(rng, n)}")
+        # the absorbing call is `update` or `Write::write` (same model function; the adapters must not differ)
+        ops.append(f"{'w' if rng.chance(write_rate) else 'u'}:{i}:{bspec(rng, n)}")
     # always end by observing every instance
     for i in range(ninst):
         ops += [f"c:{i}", f"f:{i}"]
